@@ -148,6 +148,34 @@ def run_shards(fn, arglist, procs=None):
     return out
 
 
+def run_optimized(module, func, args, prefix='optimized:'):
+    """module.func(*args) -> Result, executed in a `python -O` child (assert statements stripped; a configuration users do run,
+    PYTHONOPTIMIZE=1).  Failure signatures come back prefixed; cases are marked so that a replay runs under -O again."""
+    import base64
+    import pickle
+    import subprocess
+    blob = base64.b64encode(pickle.dumps((module, func, args))).decode()
+    code = ('import sys,pickle,base64,importlib\n'
+            'm,f,a=pickle.loads(base64.b64decode(sys.argv[1]))\n'
+            'r=getattr(importlib.import_module(m),f)(*a)\n'
+            'sys.stdout.write("OPTRESULT "+base64.b64encode(pickle.dumps((not __debug__, r))).decode()+"\\n")\n')
+    p = subprocess.run([sys.executable, '-O', '-W', 'ignore', '-c', code, blob], cwd=VERIF, env=dict(os.environ, PYTHONDONTWRITEBYTECODE='1', PYTHONHASHSEED='0'),
+                       stdout=subprocess.PIPE, stderr=subprocess.PIPE, timeout=3600)
+    line = [ln for ln in p.stdout.decode('utf-8', 'replace').splitlines() if ln.startswith('OPTRESULT ')]
+    if p.returncode != 0 or not line:
+        raise HarnessError('python -O child %s.%s failed: rc=%d %s' % (module, func, p.returncode, p.stderr.decode('utf-8', 'replace')[-500:]))
+    optimized, res = pickle.loads(base64.b64decode(line[0][len('OPTRESULT '):]))
+    if not optimized:
+        raise HarnessError('python -O child did not run optimized')
+    for f in res.failures:
+        f['sig'] = prefix + f['sig']
+        f['what'] = 'under python -O: ' + f['what']
+        if isinstance(f.get('case'), dict):
+            f['case'] = dict(f['case'], optimize=True)
+    res.count('evaluations_under_python_-O', res.evaluations)
+    return res
+
+
 # ---------------------------------------------------------------------------
 # known findings
 
